@@ -1325,6 +1325,21 @@ pub fn run_stable(rng: &mut StdRng, thorough: bool, t: &mut Tracer) {
             w.rsim("o.eq2", &coin(1_000_000, "uusd"), "uweth");
         }
     }
+    // the witness of recorded finding F11 (the swap path's D is converged to 10^-12 tokens only), independent of the seed:
+    // dust-size reserves of 6-decimals assets next to an 18-decimals one
+    {
+        let mut w = PW::new(SysCfg::default(), t, "stable_swap_path_granularity");
+        let o = w.user(0);
+        let ok = w.creation_funds();
+        let lp = w.user(1);
+        let half = Some(Decimal::percent(50));
+        if w.create_pool(&o, &["uusd", "uusdt", "uweth"], &[6, 6, 18], zero.clone(), SS(85), Some("g"), &ok) {
+            w.provide(&lp, "o.g", &sorted(vec![coin(306, "uusd"), coin(336, "uusdt"), coin(359_500_119_084_727, "uweth")]), None, None, None, None, None);
+            for (amt, from, to) in [(135u128, "uusdt", "uusd"), (135, "uusdt", "uweth"), (77, "uusd", "uusdt"), (100_000_000_000_000, "uweth", "uusd"), (50, "uusd", "uweth")] {
+                w.swap(&lp, "o.g", &[coin(amt, from)], to, None, half, None);
+            }
+        }
+    }
     // the witness of recorded finding F12 (first-deposit D of a skewed four-asset pool), independent of the seed
     {
         let mut w = PW::new(SysCfg::default(), t, "stable_first_deposit_skewed_four_assets");
